@@ -6,6 +6,7 @@
 #define ENV_LIST_ENV_H
 #include "env/common.h"
 size_t g_lw, g_lv;             /* witness indices into the element array */
+void *g_lold_w, *g_lold_v;     /* elements at the witness indices before the call (NULL when outside the view) */
 unsigned g_lfree_calls;        /* number of obj_free calls */
 void *g_lfree_last;            /* element handed to the last obj_free call */
 static void list_stub_free(void *o) { g_lfree_calls++; g_lfree_last = o; }
